@@ -12,6 +12,10 @@ open Comrak.C19
 #print axioms escapeHref_not_injective
 #print axioms hrefDecode_escapeHref_partial
 #print axioms escapeHref_injective_partial
+#print axioms hrefDecode_escapeHref_noPctEscape
+#print axioms escapeHref_injective_noPctEscape
+#print axioms noPctEscape_of_no_pct
+#print axioms noPctEscape_boundary
 #print axioms openTag_complete
 #print axioms openTag_injective
 #print axioms openTag_raw_name_counterexample
